@@ -105,3 +105,406 @@ theorem wrapNext_ok {total : Nat} (r : Option (Except ReadErr PVal)) (sp : Span)
     | ok v => exact hw v.d
 
 end SteelVerif.C12
+
+namespace SteelVerif.C12
+
+theorem Inv.weaken {total lb lb' : Nat} {r : PRes} (h : Inv total lb' r) (hl : lb ≤ lb') : Inv total lb r :=
+  ⟨h.1, h.2.1, TokSorted.weaken hl h.2.2⟩
+
+theorem inv_err {total lb : Nat} (k : ReadErrKind) (sp : Span) (st : PSt) (toks : List LexItem)
+    (hs : SpanOK total sp) (hi : ItemsOK total toks) (ht : TokSorted lb toks) :
+    Inv total lb ⟨some (.error ⟨k, sp.1, sp.2⟩), st, toks⟩ := ⟨hs, hi, ht⟩
+
+theorem inv_val {total lb : Nat} (v : Except ReadErr PVal) (st : PSt) (toks : List LexItem)
+    (hv : ValOK total v) (hi : ItemsOK total toks) (ht : TokSorted lb toks) :
+    Inv total lb ⟨some v, st, toks⟩ := ⟨hv, hi, ht⟩
+
+theorem inv_atom {total lb : Nat} (d : Datum) (sp : Span) (st : PSt) (toks : List LexItem)
+    (hs : SpanOK total sp) (hi : ItemsOK total toks) (ht : TokSorted lb toks) :
+    Inv total lb ⟨some (.ok { d := d, sp := sp }), st, toks⟩ := ⟨hs, hi, ht⟩
+
+theorem itemsOK_head_tok {total : Nat} {t : Tok} {s e : Nat} {l : List LexItem}
+    (h : ItemsOK total (.tok t s e :: l)) : SpanOK total (s, e) := h _ (List.mem_cons_self ..)
+
+theorem itemsOK_head_err {total : Nat} {k : LexErrKind} {s e : Nat} {l : List LexItem}
+    (h : ItemsOK total (.err k s e :: l)) : ErrOK total (lexErrToRead k s e) := by
+  have := h _ (List.mem_cons_self ..)
+  unfold lexErrToRead
+  split <;> exact this
+
+/-- statement of the invariant for the four mutually recursive parser functions at fuel `f` -/
+def ParserInv (total f : Nat) : Prop :=
+  (∀ st toks lb, ItemsOK total toks → TokSorted lb toks → Inv total lb (pNext f st toks)) ∧
+  (∀ st kind n top sp toks lb, SpanOK total sp → ItemsOK total toks → TokSorted lb toks →
+      Inv total lb (pShort f st kind n top sp toks)) ∧
+  (∀ st dcs toks lb, (∀ sp ∈ dcs, SpanOK total sp) → ItemsOK total toks → TokSorted lb toks →
+      Inv total lb (pTop f st dcs toks)) ∧
+  (∀ st stack cur last toks lb, (∀ fr ∈ cur :: stack, FrameOK total lb fr) → SpanOK total last →
+      ItemsOK total toks → TokSorted lb toks → Inv total lb (pList f st stack cur last toks))
+
+theorem parserInv_zero (total : Nat) : ParserInv total 0 := by
+  refine ⟨?_, ?_, ?_, ?_⟩
+  · intro st toks lb hi ht; exact inv_err _ (0, 0) _ _ (spanOK_zero _) hi ht
+  · intro st kind n top sp toks lb _ hi ht; exact inv_err _ (0, 0) _ _ (spanOK_zero _) hi ht
+  · intro st dcs toks lb _ hi ht; exact inv_err _ (0, 0) _ _ (spanOK_zero _) hi ht
+  · intro st stack cur last toks lb _ _ hi ht; exact inv_err _ (0, 0) _ _ (spanOK_zero _) hi ht
+
+theorem finishTick_inv {total lb : Nat} (kind : Nat) (r : PRes) (v : Except ReadErr PVal) (sp : Span)
+    (fixSt : PSt → PSt) (hr : Inv total lb r) (hv : ValOK total v) (hs : SpanOK total sp) :
+    Inv total lb (finishTick kind r v sp fixSt) := by
+  unfold finishTick
+  simp only
+  split
+  · exact inv_val _ _ _ hv hr.2.1 hr.2.2
+  · exact inv_err _ sp _ _ hs hr.2.1 hr.2.2
+
+/-- the shorthand handlers -/
+theorem pShort_inv (total f : Nat) (ih : ParserInv total f) :
+    ∀ st kind n top sp toks lb, SpanOK total sp → ItemsOK total toks → TokSorted lb toks →
+      Inv total lb (pShort (f + 1) st kind n top sp toks) := by
+  intro st kind n top sp toks lb hs hi ht
+  obtain ⟨ihN, _, _, _⟩ := ih
+  have hq : ∀ name d, SpanOK total (quoteList name d).sp := fun _ _ => spanOK_zero _
+  unfold pShort
+  split
+  · have hr := ihN st toks lb hi ht
+    exact inv_val _ _ _ (wrapNext_ok _ sp _ hr.1 hs (hq _)) hr.2.1 hr.2.2
+  · split
+    · simp only
+      apply finishTick_inv _ _ _ _ _ (ihN _ toks lb hi ht) _ hs
+      apply wrapNext_ok _ sp _ (ihN _ toks lb hi ht).1 hs
+      intro d
+      split
+      · exact spanOK_zero _
+      · exact hs
+    · split
+      · simp only
+        exact finishTick_inv _ _ _ _ _ (ihN _ toks lb hi ht)
+          (wrapNext_ok _ sp _ (ihN _ toks lb hi ht).1 hs (hq _)) hs
+      · simp only
+        exact finishTick_inv _ _ _ _ _ (ihN _ toks lb hi ht)
+          (wrapNext_ok _ sp _ (ihN _ toks lb hi ht).1 hs (hq _)) hs
+
+end SteelVerif.C12
+
+namespace SteelVerif.C12
+
+/-- `maybe_return!` -/
+theorem finish_inv {total lb : Nat} (f : Nat) (dcs : List Span) (r : PRes) :
+    (∀ st dcs toks lb, (∀ sp ∈ dcs, SpanOK total sp) → ItemsOK total toks → TokSorted lb toks →
+      Inv total lb (pTop f st dcs toks)) →
+    (∀ sp ∈ dcs, SpanOK total sp) → Inv total lb r →
+    Inv total lb (match r.val with
+      | some (.ok _) =>
+        match dcs with
+        | _ :: dcs' => pTop f r.st dcs' r.rest
+        | [] => r
+      | _ => r) := by
+  intro ihT hd hr
+  split
+  · split
+    · exact ihT _ _ _ _ (fun sp h => hd sp (List.mem_cons_of_mem _ h)) hr.2.1 hr.2.2
+    · exact hr
+  · exact hr
+
+theorem pTop_inv (total f : Nat) (ih : ParserInv total f) :
+    ∀ st dcs toks lb, (∀ sp ∈ dcs, SpanOK total sp) → ItemsOK total toks → TokSorted lb toks →
+      Inv total lb (pTop (f + 1) st dcs toks) := by
+  intro st dcs toks lb hd hi ht
+  obtain ⟨ihN, ihS, ihT, ihL⟩ := ih
+  cases toks with
+  | nil =>
+    unfold pTop
+    cases dcs with
+    | nil => exact ⟨trivial, hi, ht⟩
+    | cons sp dcs' => exact inv_err _ sp _ _ (hd sp (List.mem_cons_self ..)) hi ht
+  | cons item toks =>
+    have hi' := itemsOK_tail hi
+    cases item with
+    | err k s e =>
+      simp only [pTop]
+      exact ⟨itemsOK_head_err hi, hi', ht⟩
+    | tok t s e =>
+      have hsp : SpanOK total (s, e) := itemsOK_head_tok hi
+      have hlb : lb ≤ s := ht.1
+      have ht' : TokSorted s toks := ht.2
+      have hfin := fun (r : PRes) (hr : Inv total s r) => (finish_inv f dcs r ihT hd hr).weaken hlb
+      cases t with
+      | comment doc =>
+        simp only [pTop]
+        split
+        · exact inv_err _ (s, e) _ _ hsp hi' (TokSorted.weaken hlb ht')
+        · exact (ihT _ _ _ _ hd hi' ht').weaken hlb
+      | dcomment =>
+        simp only [pTop]
+        exact (ihT _ _ _ _ (by intro sp h; rcases List.mem_cons.mp h with h | h; (subst h; exact hsp); exact hd sp h)
+          hi' ht').weaken hlb
+      | synQuote =>
+        simp only [pTop]
+        exact hfin _ (ihS _ _ _ _ _ _ _ hsp hi' ht')
+      | synQuasi =>
+        simp only [pTop]
+        exact hfin _ (ihS _ _ _ _ _ _ _ hsp hi' ht')
+      | synUnquote =>
+        simp only [pTop]
+        exact hfin _ (ihS _ _ _ _ _ _ _ hsp hi' ht')
+      | synSplice =>
+        simp only [pTop]
+        exact hfin _ (ihS _ _ _ _ _ _ _ hsp hi' ht')
+      | tick =>
+        simp only [pTop]
+        exact hfin _ (ihS _ _ _ _ _ _ _ hsp hi' ht')
+      | unquote =>
+        simp only [pTop]
+        exact hfin _ (ihS _ _ _ _ _ _ _ hsp hi' ht')
+      | quasi =>
+        simp only [pTop]
+        exact hfin _ (ihS _ _ _ _ _ _ _ hsp hi' ht')
+      | splice =>
+        simp only [pTop]
+        exact hfin _ (ihS _ _ _ _ _ _ _ hsp hi' ht')
+      | open_ p m =>
+        simp only [pTop]
+        refine hfin _ (ihL _ _ _ _ _ _ ?_ hsp hi' ht')
+        intro fr hfr
+        simp at hfr
+        subst hfr
+        exact ⟨hsp, Nat.le_refl _, by intro i sp h; cases h⟩
+      | close p =>
+        simp only [pTop]
+        exact inv_err _ (s, e) _ _ hsp hi' (TokSorted.weaken hlb ht')
+      | kw k =>
+        simp only [pTop]
+        exact hfin _ (inv_atom _ _ _ _ hsp hi' ht')
+      | chr c =>
+        simp only [pTop]
+        exact hfin _ (inv_atom _ _ _ _ hsp hi' ht')
+      | bool b =>
+        simp only [pTop]
+        exact hfin _ (inv_atom _ _ _ _ hsp hi' ht')
+      | ident x =>
+        simp only [pTop]
+        exact hfin _ (inv_atom _ _ _ _ hsp hi' ht')
+      | keyword x =>
+        simp only [pTop]
+        exact hfin _ (inv_atom _ _ _ _ hsp hi' ht')
+      | num x =>
+        simp only [pTop]
+        exact hfin _ (inv_atom _ _ _ _ hsp hi' ht')
+      | str x =>
+        simp only [pTop]
+        exact hfin _ (inv_atom _ _ _ _ hsp hi' ht')
+      | dot =>
+        simp only [pTop]
+        exact hfin _ (inv_atom _ _ _ _ hsp hi' ht')
+
+end SteelVerif.C12
+
+namespace SteelVerif.C12
+
+/-- pushing a value into a frame: an error with the value's span, or the continuation -/
+theorem push_then {total lb : Nat} (cur : Frame) (d : Datum) (sp : Span) (b : Bool)
+    (info : Option (List Datum × Bool)) (k : Frame → PRes) (st : PSt) (toks : List LexItem) :
+    FrameOK total lb cur → SpanOK total sp → ItemsOK total toks → TokSorted lb toks →
+    (∀ cur', FrameOK total lb cur' → Inv total lb (k cur')) →
+    Inv total lb (match cur.push d sp b info with
+      | .error e => ⟨some (.error e), st, toks⟩
+      | .ok cur' => k cur') := by
+  intro hc hs hi ht hk
+  have := push_spans (total := total) (lb := lb) cur d sp b info hc hs
+  cases hp : cur.push d sp b info with
+  | error e => rw [hp] at this; exact ⟨this, hi, ht⟩
+  | ok cur' => rw [hp] at this; exact hk cur' this
+
+theorem frames_weaken {total lb lb' : Nat} {l : List Frame} (h : ∀ fr ∈ l, FrameOK total lb fr) (hl : lb ≤ lb') :
+    ∀ fr ∈ l, FrameOK total lb' fr := fun fr hfr => (h fr hfr).weaken hl
+
+theorem frames_cons {total lb : Nat} {x : Frame} {l : List Frame} (hx : FrameOK total lb x)
+    (h : ∀ fr ∈ l, FrameOK total lb fr) : ∀ fr ∈ x :: l, FrameOK total lb fr := by
+  intro fr hfr
+  rcases List.mem_cons.mp hfr with h1 | h1
+  · subst h1; exact hx
+  · exact h fr h1
+
+theorem pList_inv (total f : Nat) (ih : ParserInv total f) :
+    ∀ st stack cur last toks lb, (∀ fr ∈ cur :: stack, FrameOK total lb fr) → SpanOK total last →
+      ItemsOK total toks → TokSorted lb toks → Inv total lb (pList (f + 1) st stack cur last toks) := by
+  intro st stack cur last toks lb hfr hlast hi ht
+  obtain ⟨ihN, ihS, ihT, ihL⟩ := ih
+  cases toks with
+  | nil =>
+    simp only [pList]
+    exact ⟨hlast, hi, ht⟩
+  | cons item toks =>
+    have hi' := itemsOK_tail hi
+    cases item with
+    | err k s e =>
+      simp only [pList]
+      exact ⟨itemsOK_head_err hi, hi', ht⟩
+    | tok t s e =>
+      have hsp : SpanOK total (s, e) := itemsOK_head_tok hi
+      have hlb : lb ≤ s := ht.1
+      have ht' : TokSorted s toks := ht.2
+      have hfr' : ∀ fr ∈ cur :: stack, FrameOK total s fr := frames_weaken hfr hlb
+      have hcur : FrameOK total s cur := hfr' cur (List.mem_cons_self ..)
+      have hstack : ∀ fr ∈ stack, FrameOK total s fr := fun fr h => hfr' fr (List.mem_cons_of_mem _ h)
+      have hfail : ∀ (k : ReadErrKind), Inv total lb ⟨some (.error ⟨k, s, e⟩), st, toks⟩ :=
+        fun k => inv_err k (s, e) _ _ hsp hi' (TokSorted.weaken hlb ht')
+      -- a shorthand form inside the list
+      have hshort : ∀ kind, Inv total lb
+          (match (pShort f st kind stack.length false (s, e) toks).val with
+           | some (.ok v) =>
+             match cur.push v.d v.sp false v.info with
+             | .error er => ⟨some (.error er), (pShort f st kind stack.length false (s, e) toks).st,
+                            (pShort f st kind stack.length false (s, e) toks).rest⟩
+             | .ok cur' => pList f (pShort f st kind stack.length false (s, e) toks).st stack cur' (s, e)
+                            (pShort f st kind stack.length false (s, e) toks).rest
+           | _ => pShort f st kind stack.length false (s, e) toks) := by
+        intro kind
+        have hr := ihS st kind stack.length false (s, e) toks s hsp hi' ht'
+        refine Inv.weaken ?_ hlb
+        split
+        · rename_i v hv
+          have hvs : SpanOK total v.sp := by
+            have := hr.1
+            unfold ResOK at this
+            rw [hv] at this
+            exact this
+          exact push_then cur v.d v.sp false v.info _ _ _ hcur hvs hr.2.1 hr.2.2
+            (fun cur' hc' => ihL _ _ _ _ _ _ (frames_cons hc' hstack) hsp hr.2.1 hr.2.2)
+        · exact hr
+      cases t with
+      | dot =>
+        simp only [pList]
+        split
+        · exact hfail _
+        · split
+          · exact hfail _
+          · split
+            · exact hfail _
+            · exact hfail _
+            · split
+              · exact hfail _
+              · refine (ihL _ _ _ _ _ _ (frames_cons ?_ hstack) hsp hi' ht').weaken hlb
+                exact ⟨hcur.1, hcur.2.1, by intro i sp h; simp at h; rw [← h.2]; exact hsp⟩
+      | comment doc =>
+        simp only [pList]
+        exact (ihL _ _ _ _ _ _ hfr' hsp hi' ht').weaken hlb
+      | dcomment =>
+        simp only [pList]
+        refine (ihL _ _ { cur with comment := cur.comment + 1 } _ _ _ (frames_cons ?_ hstack) hsp hi' ht').weaken hlb
+        exact ⟨hcur.1, hcur.2.1, hcur.2.2⟩
+      | synQuote => simp only [pList]; exact hshort 4
+      | synQuasi => simp only [pList]; exact hshort 5
+      | synUnquote => simp only [pList]; exact hshort 6
+      | synSplice => simp only [pList]; exact hshort 7
+      | tick => simp only [pList]; exact hshort 0
+      | unquote => simp only [pList]; exact hshort 1
+      | quasi => simp only [pList]; exact hshort 2
+      | splice => simp only [pList]; exact hshort 3
+      | open_ p m =>
+        simp only [pList]
+        refine (ihL _ _ _ _ _ _ (frames_cons ?_ hfr') hsp hi' ht').weaken hlb
+        exact ⟨hsp, Nat.le_refl _, by intro i sp h; cases h⟩
+      | close p =>
+        simp only [pList]
+        split
+        · exact hfail _
+        · cases stack with
+          | nil =>
+            simp only
+            exact inv_val _ _ _ (build_spans cur (s, e) hcur hsp (Nat.le_refl _)) hi' (TokSorted.weaken hlb ht')
+          | cons prev stack' =>
+            simp only
+            have hprev : FrameOK total s prev := hstack prev (List.mem_cons_self ..)
+            have hstack' : ∀ fr ∈ stack', FrameOK total s fr := fun fr h => hstack fr (List.mem_cons_of_mem _ h)
+            have hprev1 := childClose_frame st prev hprev
+            have hb := build_spans cur (s, e) hcur hsp (Nat.le_refl _)
+            refine Inv.weaken ?_ hlb
+            cases hbuild : cur.build (s, e) with
+            | error er =>
+              rw [hbuild] at hb
+              exact ⟨hb, hi', ht'⟩
+            | ok v =>
+              rw [hbuild] at hb
+              simp only
+              exact push_then _ v.d v.sp false v.info _ _ _ hprev1 hb hi' ht'
+                (fun cur' hc' => ihL _ _ _ _ _ _ (frames_cons hc' hstack') hsp hi' ht')
+      | kw k =>
+        simp only [pList]
+        exact (push_then cur _ (s, e) _ none _ _ _ hcur hsp hi' ht'
+          (fun cur' hc' => ihL _ _ _ _ _ _ (frames_cons hc' hstack) hsp hi' ht')).weaken hlb
+      | chr c =>
+        simp only [pList]
+        exact (push_then cur _ (s, e) _ none _ _ _ hcur hsp hi' ht'
+          (fun cur' hc' => ihL _ _ _ _ _ _ (frames_cons hc' hstack) hsp hi' ht')).weaken hlb
+      | bool b =>
+        simp only [pList]
+        exact (push_then cur _ (s, e) _ none _ _ _ hcur hsp hi' ht'
+          (fun cur' hc' => ihL _ _ _ _ _ _ (frames_cons hc' hstack) hsp hi' ht')).weaken hlb
+      | ident x =>
+        simp only [pList]
+        exact (push_then cur _ (s, e) _ none _ _ _ hcur hsp hi' ht'
+          (fun cur' hc' => ihL _ _ _ _ _ _ (frames_cons hc' hstack) hsp hi' ht')).weaken hlb
+      | keyword x =>
+        simp only [pList]
+        exact (push_then cur _ (s, e) _ none _ _ _ hcur hsp hi' ht'
+          (fun cur' hc' => ihL _ _ _ _ _ _ (frames_cons hc' hstack) hsp hi' ht')).weaken hlb
+      | num x =>
+        simp only [pList]
+        exact (push_then cur _ (s, e) _ none _ _ _ hcur hsp hi' ht'
+          (fun cur' hc' => ihL _ _ _ _ _ _ (frames_cons hc' hstack) hsp hi' ht')).weaken hlb
+      | str x =>
+        simp only [pList]
+        exact (push_then cur _ (s, e) _ none _ _ _ hcur hsp hi' ht'
+          (fun cur' hc' => ihL _ _ _ _ _ _ (frames_cons hc' hstack) hsp hi' ht')).weaken hlb
+
+/-- the four parser functions keep every reported span inside the text, at every fuel -/
+theorem parserInv (total : Nat) : ∀ f, ParserInv total f := by
+  intro f
+  induction f with
+  | zero => exact parserInv_zero total
+  | succ f ih =>
+    refine ⟨?_, pShort_inv total f ih, pTop_inv total f ih, pList_inv total f ih⟩
+    intro st toks lb hi ht
+    simp only [pNext]
+    exact ih.2.2.1 _ _ _ _ (by intro sp h; cases h) hi ht
+
+end SteelVerif.C12
+
+namespace SteelVerif.C12
+
+theorem readLoop_total (total : Nat) : ∀ (f : Nat) (st : PSt) (acc : List Datum) (toks : List LexItem) (lb : Nat),
+    ItemsOK total toks → TokSorted lb toks →
+    match readLoop f st acc toks with
+    | .ok _ => True
+    | .error e => ErrOK total e := by
+  intro f
+  induction f with
+  | zero => intro st acc toks lb _ _; exact spanOK_zero total
+  | succ f ih =>
+    intro st acc toks lb hi ht
+    have hr := (parserInv total (4 * toks.length + 4)).1 st toks lb hi ht
+    unfold readLoop
+    simp only
+    cases hv : (pNext (4 * toks.length + 4) st toks).val with
+    | none => trivial
+    | some v =>
+      have hres := hr.1
+      unfold ResOK at hres
+      rw [hv] at hres
+      cases v with
+      | error e => exact hres
+      | ok v =>
+        simp only
+        by_cases h1 : v.d.hasBadAtom = true
+        · rw [if_pos h1]; exact spanOK_zero total
+        rw [if_neg h1]
+        by_cases h2 : v.d.hasPolar = true
+        · rw [if_pos h2]; exact hres
+        rw [if_neg h2]
+        exact ih _ _ _ lb hr.2.1 hr.2.2
+
+theorem lex_itemsOK (src : Text) : ItemsOK (utf8Len src) (lex src) := lex_spans src
+
+end SteelVerif.C12
